@@ -6,6 +6,8 @@ package configure
 //@ ghost field (Configure) NLoaders int
 //@ ghost field (Configure) LoaderAt map[int]Loader
 
+//@ ghost field (Configure) TheBinder Binder
+//@ bind (c *configure) Configure.TheBinder = c.Binder
 //@ bind (c *configure) Configure.NLoaders = len(c.loaders) footprint c.loaders
 //@ bind (c *configure) Configure.LoaderAt[i] = c.loaders[i] footprint c.loaders, elems(c.loaders)
 
@@ -101,3 +103,24 @@ package configure
 //@ property C15
 //@ requires [binder-set] c.Binder != nil
 //@ requires [loaders-non-nil] forall(k, int, implies(0 <= k && k < len(c.loaders), c.loaders[k] != nil))
+
+//@ method (Configure).SetBinder
+//@ property C15
+//@ assigns self.TheBinder
+//@ ensures [binder-replaced] self.TheBinder == binder
+//@ ensures [loaders-kept] true
+
+//@ func (*configure).SetBinder
+//@ implements Configure
+
+//@ func NewConfigure
+//@ property C15
+//@ assigns nothing
+//@ ensures [empty] result != nil && fresh(result) && typeIs(result, *configure) && result.NLoaders == 0 && result.TheBinder == nil && asType(result, *configure).loaders == nil
+
+// Default: command-line arguments are the first (and only) source, a YAML binder is installed.
+//@ func Default
+//@ property C15
+//@ assigns nothing
+//@ ensures [args-loader-first] result != nil && fresh(result) && result.NLoaders == 1 && result.LoaderAt[0] == loader.ArgsLoader(os.Args)
+//@ ensures [binder-installed] result.TheBinder != nil
